@@ -25,6 +25,12 @@ func tfTrees() []treeGen {
 		{"T1", func() any {
 			return NewList(NewObject("a", 1, "0", NewList(9)), NewList(NewObject("a", NewList(1, 2)), 4), 3, nil)
 		}},
+		{"T4", func() any { // shrunk lists: stale elements behind len within spare capacity
+			return NewList(1, NewObject("z", 1), 3, 4).Delete(1).Delete(1)
+		}},
+		{"T5", func() any {
+			return NewObject("a", NewList(1, 2, 3).Pop().Pop(), "l", NewList(NewList(7, 8, 9).Delete(0), 5, 6).Pop())
+		}},
 		{"T2", func() any { return NewObject() }},
 		{"T3", func() any { return NewList() }},
 	}
@@ -272,9 +278,9 @@ func c11Oracle(c *oracleCtx) {
 	}
 	paths = append(paths, ".a.l#1.c", ".a.l#5", ".a.l#3.x", ".l#0#2", ".n.k", ".s#1", ".a#0", ".l.k", "#0.0#0", "#1#0.a#3", "#2.k", "#3#1", "#5", "#4.a", ".a.b.c", ".new#2.k")
 	c.rule = "well-formed tree-form paths (existing, partially existing, new; wrong-kind, nil and missing intermediates; index <, =, > length) on 2 trees: SetTF succeeds, matches the reference write on a native mirror, keeps identities of reused intermediates; UnsetTF removes exactly the addressed entry or leaves the tree unchanged"
-	c.bound = fmt.Sprintf("%d paths x 2 trees x 3 values, plus UnsetTF on every path", len(paths))
+	c.bound = fmt.Sprintf("%d paths x 4 trees (2 of them with lists that shrank and keep stale elements in spare capacity) x 3 values, plus UnsetTF on every path", len(paths))
 	vals := []any{5, nil, "v"}
-	for _, tg := range tfTrees()[:2] {
+	for _, tg := range tfTrees()[:4] {
 		_, rootIsList := tg.make().(List)
 		for _, p := range paths {
 			if (p[0] == '#') != rootIsList {
